@@ -130,7 +130,10 @@ def stream(family, tier):
              rule(A("k"), [[True, A("x")], [True, A("y")]]), one("k", "z")],
         ]
         for cl in shapes:
+            defined = {c["heads"][0][1][0] for c in cl}
             for qs in (["n", "k"], ["k", "n"], ["m", "k"], ["k"]):
+                if not set(qs) <= defined:
+                    continue
                 yield {"clauses": facts + cl, "queries": [A(q) for q in qs], "evidence": []}
             yield {"clauses": facts + cl, "queries": [A("k")], "evidence": [[A("n"), True, "pair"]]}
     elif family == "FT":
@@ -182,6 +185,11 @@ def stream(family, tier):
 def shard_stream(family, tier, mod, rem, stride=1, offset=0):
     """programs of the family whose index i satisfies i % stride == offset (thinning, reported as
     a cap by the caller when stride > 1) and (i // stride) % mod == rem"""
+    if "/" in family:
+        # "F1.3/64": the fixed slice of a very large family made of every 64th program (a deterministic
+        # stratum; the index reported is the index in the full family)
+        family, k = family.split("/")
+        stride, offset = stride * int(k), offset * int(k)
     for i, p in enumerate(stream(family, tier)):
         if i % stride != offset:
             continue
